@@ -195,7 +195,7 @@ func (x *Exec) assumeLeafFacts(st *State, tm Term, l Leaf, full bool) {
 }
 
 func (x *Exec) sliceFacts(st *State, s *SliceV) {
-	st.assume(And(Ge(s.Off, TZero), Ge(s.Len, TZero), Le(s.Len, s.Cap), Ge(s.Ptr, TZero), Lt(s.Ptr, st.alloc)))
+	st.assume(And(Ge(s.Off, TZero), Ge(s.Len, TZero), Le(s.Len, s.Cap), Le(s.Cap, IntLit(9223372036854775807)), Ge(s.Ptr, TZero), Lt(s.Ptr, st.alloc)))
 	// a slice with capacity has a backing array (nil slices have ptr 0)
 	st.assume(Imp(Gt(s.Cap, TZero), Gt(s.Ptr, TZero)))
 }
